@@ -297,10 +297,10 @@ ep_prop("C09",
 
 ep_prop("C10",
     lambda tier: [ep("timers", 3000, 100000, tier, "C10")],
-    "timers: one client and a server with active timeouts 1..120 s, keepalive on/off with intervals 0.5..30 s, SYN / SYN-ACK / ACK lost 0..11 times (handshakes lasting 0..22 s), step cadences 1 ms..1 s, busy then idle phases, a total or one-way blackout from a random moment; in 40 % of scenarios one side calls disconnect / disconnect_now 0 ms..10 s after its Connect event (also while a handshake resend timer may still be pending) and the first 0..11 or all of its Disconnect requests are lost; 15 % are the plain keepalive case: a short exchange in both directions, then 1..3 minutes idle on a loss-free network with keepalive on both sides or on one side only (a keepalive is answered, which supplies both ends), small steps and latencies. non-trivial: a timeout fired, a disconnect attempt was judged, or the connection stayed idle for >= 3 timeouts.",
+    "timers: one client and a server with active timeouts 1..120 s (8 % of the non-idle scenarios: one or both sides configured with 'never' — 2^64-1, 2^64-2, 2^64-20000, 2^63, 2^63-1, ... — also for the keepalive interval), keepalive on/off with intervals 0.5..30 s, SYN / SYN-ACK / ACK lost 0..11 times (handshakes lasting 0..22 s), step cadences 1 ms..1 s, busy then idle phases, a total or one-way blackout from a random moment; in 40 % of scenarios one side calls disconnect / disconnect_now 0 ms..10 s after its Connect event (also while a handshake resend timer may still be pending) and the first 0..11 or all of its Disconnect requests are lost; 15 % are the plain keepalive case: a short exchange in both directions, then 1..3 minutes idle on a loss-free network with keepalive on both sides or on one side only (a keepalive is answered, which supplies both ends), small steps and latencies. non-trivial: a timeout fired, a disconnect attempt was judged, or the connection stayed idle for >= 3 timeouts.",
     "Reference timer model from the relayed frames and step times: Error(Timeout) on an established connection only at a step where the last read of a Data/Ack/Sync frame (or the establishing handshake frame) is >= active_timeout_ms ago, and at the first such step; handshake attempts end with Timeout after exactly 1+10 SYNs and not before 22 s; server-side pending entries after 11 SYN-ACKs; SYN resends never closer than 2 s; disconnect attempts: requests never closer than 2 s, at most 1+10 of them, Error(Timeout) only after all 11 and not before 22 s after the first, nor later than that plus 12 steps; with keepalive on (both directions inside the documented max(interval, 2 s, RTO) pace, RTO as observed; or, for steps <= 100 ms and latency <= 50 ms, inside max(interval, 2 s) + 3.5 s without reference to the endpoints' own RTO, which is at most 2 s there a priori) an idle connection on a network that lost nothing after the handshake never times out.",
     "reference timer model over recorded deliveries and step times",
-    dict(quick=1500, thorough=30000), require=["c10_timeouts_checked", "c10_handshake_timeouts_checked", "c10_keepalive_cases_checked", "c10_keepalive_cases_checked_fast_domain", "c10_keepalive_cases_one_sided", "c10_disconnect_attempts_checked", "c10_disconnect_timeouts_checked"])
+    dict(quick=1500, thorough=30000), require=["c10_timeouts_checked", "c10_handshake_timeouts_checked", "c10_keepalive_cases_checked", "c10_keepalive_cases_checked_fast_domain", "c10_keepalive_cases_one_sided", "c10_disconnect_attempts_checked", "c10_disconnect_timeouts_checked", "c10_never_timeout_configurations"])
 
 ep_prop("C17",
     lambda tier: [ep("limits", 2500, 80000, tier, "C17")],
